@@ -1,5 +1,5 @@
 (* Properties/C02.v — annotations reach exactly the ancestors; records stay direct (C02) *)
-From HpoV Require Import Gen.Consts Model.Base Model.Group Model.Onto Model.Dump Run.World Run.C02 Proofs.C02P Proofs.ClosureP Proofs.LinkP Proofs.RecordsP Proofs.GroupP Proofs.DistP Proofs.AcyclicP Proofs.AnnotP Proofs.BuilderAnnotP Model.Script Proofs.AllPathsP.
+From HpoV Require Import Gen.Consts Model.Base Model.Group Model.Onto Model.Dump Run.World Run.C02 Proofs.C02P Proofs.ClosureP Proofs.LinkP Proofs.RecordsP Proofs.GroupP Proofs.DistP Proofs.AcyclicP Proofs.AnnotP Proofs.BuilderAnnotP Model.Script Proofs.AllPathsP Proofs.TotalLinkP.
 
 (* For every observation that passes the executable statement (evaluated by the check on the real
    crate's observation of every generated ontology, for each of the three kinds separately): *)
@@ -96,6 +96,13 @@ Theorem C02_every_constructed_ontology : forall icf o, constructed icf o ->
   (forall k r d, In r (o_records k o) -> In d (a_hpos r) -> In d (ar_keys (o_arena o))).
 Proof. exact constructed_annotations. Qed.
 
+(* TOTALITY of the upward propagation: in an arena with transitive, irreflexive, duplicate-free
+   ancestor caches, linking an annotation to a stored term RETURNS whenever the fuel exceeds the
+   size of the term's ancestor cache (link_fuel always does) *)
+Theorem C02_model_link_returns : forall k g fuel a tid, good k a -> caches_nodup a -> In tid (ar_keys a) ->
+  (length (allp_of a tid) < fuel)%nat -> exists a', link fuel k a tid g = Ok a'.
+Proof. exact link_total. Qed.
+
 Print Assumptions C02_inherited_exact.
 Print Assumptions C02_records_wellformed.
 Print Assumptions C02_linked_ids_resolve.
@@ -108,3 +115,4 @@ Print Assumptions C02_propagation_hypotheses_hold.
 Print Assumptions C02_model_record_phase.
 Print Assumptions C02_builder_annotations_exact.
 Print Assumptions C02_every_constructed_ontology.
+Print Assumptions C02_model_link_returns.
